@@ -54,11 +54,32 @@ func zzHoldsBitExact(st store.Store, g *zzSrc) bool {
 	return zzvAnd(ok, n == len(g.idx))
 }
 
+// real mappings incl. ones rebuilt from a base and a non-default (negative, fractional) offset
+func zzC09Mapping(k int) mapping.IndexMapping {
+	if k < 3 {
+		return zzRealMapping(k)
+	}
+	l, _ := mapping.NewLogarithmicMapping(0.02)
+	g := 1.0408163265306123 // gamma of accuracy 0.02
+	_ = l
+	switch k {
+	case 3:
+		m, _ := mapping.NewLogarithmicMappingWithGamma(g, -2.5)
+		return m
+	case 4:
+		m, _ := mapping.NewLinearlyInterpolatedMappingWithGamma(g, 7.25)
+		return m
+	default:
+		m, _ := mapping.NewCubicallyInterpolatedMappingWithGamma(g, -0.75)
+		return m
+	}
+}
+
 func zzC09Source(srcKind, dstKind int, mk int) (*DDSketch, *zzSrc, *zzSrc) {
 	zzvExactFloatsOnly()
 	zzvMapOrders(2)
 	zzNarrowBase = srcKind == 2 || dstKind == 2
-	s := NewDDSketch(zzRealMapping(mk), zzProvider(srcKind)(), zzProvider(srcKind)())
+	s := NewDDSketch(zzC09Mapping(mk), zzProvider(srcKind)(), zzProvider(srcKind)())
 	npat := 4
 	if zzNarrowBase {
 		npat = 3
@@ -72,8 +93,8 @@ func zzC09Source(srcKind, dstKind int, mk int) (*DDSketch, *zzSrc, *zzSrc) {
 
 // (a) in-memory message -> rebuilt sketch with any store kind: bit-for-bit
 func zzC09Rebuild(srcKind, dstKind int) {
-	zzvBound("protobuf rebuild", "source sketch built by the real code on the given store kind: 0-2 positive / 0-1 negative bins at distinct indexes (symbolic base, enumerated for the paginated store), every positive finite float64 weight and zero weight (all bit patterns), the three mapping kinds; rebuilt by FromProtoWithStoreProvider into the given kind")
-	s, gp, gn := zzC09Source(srcKind, dstKind, zzvChoose("mapping", 3))
+	zzvBound("protobuf rebuild", "source sketch built by the real code on the given store kind: 0-2 positive / 0-1 negative bins at distinct indexes (symbolic base, enumerated for the paginated store), every positive finite float64 weight and zero weight (all bit patterns), the three mapping kinds with default and non-default (negative / fractional) offsets; rebuilt by FromProtoWithStoreProvider into the given kind")
+	s, gp, gn := zzC09Source(srcKind, dstKind, zzvChoose("mapping", 6))
 	zzvCover("built")
 	msg := s.ToProto()
 	dst, err := FromProtoWithStoreProvider(msg, zzProvider(dstKind))
@@ -110,6 +131,10 @@ func ZZ_C09_mixed_message_adds_up() {
 	k2 := off + 40
 	w1, w2 := zzPosWeight("w1"), zzPosWeight("w2")
 	c := []float64{zzPosWeight("c0"), zzPosWeight("c1"), zzPosWeight("c2")}
+	if zzvChoose("zeroEnds", 2) == 1 {
+		// hand-built messages may start and end with empty bins
+		c[0], c[2] = 0, 0
+	}
 	if dstKind == 2 {
 		// paginated target: weights from a grid (unit weights take the buffer path)
 		w1, w2 = []float64{1, 2.5}[zzvChoose("w1", 2)], 1
@@ -370,7 +395,7 @@ func zzPBStoreEqualsMessage(p zzPBStore, msg *sketchpb.Store) bool {
 
 func zzC09Stream(srcKind int) {
 	zzvBound("streaming writer", "source sketches as for the rebuild harness; the bytes written by EncodeProto (generated builders + protowire, executed from their real code) are parsed by a reference protobuf wire parser (accepting packed and unpacked repeated doubles) and compared field by field, bit for bit, with the message ToProto builds")
-	s, _, _ := zzC09Source(srcKind, srcKind, zzvChoose("mapping", 3))
+	s, _, _ := zzC09Source(srcKind, srcKind, zzvChoose("mapping", 6))
 	zzvCover("built")
 	sink := &zzSink{}
 	s.EncodeProto(sink)
